@@ -481,9 +481,11 @@ def type_rows(seed: int) -> list[dict]:
             observe(tname, T, wfn, rfn, v)
     utc = datetime.timezone.utc
     zones = [utc, datetime.timezone(datetime.timedelta(hours=5, minutes=30)), datetime.timezone(datetime.timedelta(hours=-8))]
+    far_zones = [datetime.timezone(datetime.timedelta(hours=h, minutes=m)) for h, m in ((2, 0), (14, 0), (-12, 0), (0, 1))]
     for tname in ("TZAware", "TZAwareMicros"):
         T, wfn, rfn = others[tname]
-        mss = [-86400000, -1001, -1000, -1, 0, 1, 999, 1000, 1716899460123, 253402300799999 - 86400000 * 2,
+        mss = [-86400000, -50400000, -19800001, -19800000, -7200001, -7200000, -60000, -1001, -1000, -1, 0, 1, 999, 1000,
+               7200000, 19800000, 50400000, 86400000, 1716899460123, 253402300799999 - 86400000 * 2,
                253402300799999, 253402300799000] + [rng.randrange(0, 253402300800000 - 86400000 * 2) for _ in range(150)]
         for ms in mss:
             for us in (0, 1, 500, 999):
@@ -491,7 +493,12 @@ def type_rows(seed: int) -> list[dict]:
                     v = project.EPOCH + datetime.timedelta(milliseconds=ms, microseconds=us)
                 except OverflowError:
                     continue
-                z = rng.choice(zones) if 86400000 < ms < 253402300799999 - 86400000 * 2 else utc
+                if abs(ms) <= 86400000:
+                    # around the epoch the wall-clock year / day of a zone disagrees with the instant's sign
+                    for z in zones + far_zones:
+                        observe(tname, T, wfn, rfn, v.astimezone(z))
+                    continue
+                z = rng.choice(zones) if ms < 253402300799999 - 86400000 * 2 else utc
                 observe(tname, T, wfn, rfn, v.astimezone(z))
                 if rng.random() < 0.2:
                     observe(tname, T, wfn, rfn, v.replace(tzinfo=None))      # naive
